@@ -1,5 +1,5 @@
 HOOK_COMMITS = ["50186a2"]
-NOTES = ("Fix commits in /repo (genuine defects, see known_findings.json 'fixed'): f40c5b0, 05011a7, a30fe62. "
+NOTES = ("Fix commits in /repo (genuine defects, see known_findings.json 'fixed'): f40c5b0, 05011a7, a30fe62, 1409e77. "
          "Proof tiers: G = any arithmetic, S = any arithmetic satisfying the IEEE contract FloatSpec, E = exact reals; see DESIGN.md §6.")
 NOT_YET = {}
 S_NOTE = ("Theorems are about the Lean model; S-tier ones assume the FloatSpec contract (IEEE-754 binary64 semantics + glibc sanity bounds, "
